@@ -24,7 +24,7 @@ var c01Srcs = []string{"x1", "x2"}
 
 type c01Scenario struct {
 	Seed     uint64
-	Variant  int // bit 0: two key fields; bits 1-2: message mode; bit 3: end with a stop under faults; bit 4: small quota; bit 5: two outputs
+	Variant  int // bit 0: two key fields; bits 1-2: message mode; bit 3: end with a stop under faults; bit 4: small quota; bit 5: two outputs; bit 6: wrong ACKs; bit 7: session rotation
 	Gens     int // number of generations (1..3)
 	Plan     []c01PlanRec
 	ConnGen  []int // generation (0-based) in which each connection lives
@@ -34,6 +34,7 @@ type c01Scenario struct {
 	Quota    bool
 	TwoOut   bool
 	WrongAck bool
+	Rotate   bool // upstream.maxDuration of tens of milliseconds: sessions are rotated (soft stop) all the time
 }
 
 func (sc *c01Scenario) keys() []string {
@@ -103,6 +104,9 @@ func c01GenScenario(r *Rng, thorough bool, focus string) *c01Scenario {
 	if thorough && r.Chance(1, 10) {
 		v |= 64
 	}
+	if r.Chance(1, 4) {
+		v |= 128
+	}
 	sc.Variant = v
 	sc.Gens = 1 + r.Intn(3)
 	nconnPerGen := func() int { return 1 + r.Intn(3) }
@@ -154,6 +158,7 @@ func (sc *c01Scenario) decode() {
 	sc.Quota = sc.Variant&16 != 0
 	sc.TwoOut = sc.Variant&32 != 0
 	sc.WrongAck = sc.Variant&64 != 0
+	sc.Rotate = sc.Variant&128 != 0
 }
 
 // case line of a scenario: kind 1, Z = [seed, variant, gens, nconn, conngen..., nrec, (conn, class, app, src)...]
@@ -235,6 +240,8 @@ type c01Run struct {
 
 func (run *c01Run) problem(sig, desc string) { run.Problems = append(run.Problems, Fail{sig, desc}) }
 
+var c01StuckScenarios int // scenarios of this process whose healthy ending timed out
+
 var c01Payloads = []string{"hello", "GET /index.html 200", "user=bob action=login", "x", "päivää ünïcode", "a=1 b=2 c=3 d=4", strings.Repeat("z", 90)}
 
 // c01Execute runs the scenario on the real agent.
@@ -262,6 +269,15 @@ func c01Execute(sc *c01Scenario) (run *c01Run) {
 	p.PingMs = r.PickInt([]int{40, 70})
 	if sc.Quota {
 		p.MemLen = 2
+	}
+	maxDuration := ""
+	if sc.Rotate {
+		// session rotation (soft stop: the client waits for the pending ACKs) every few tens of milliseconds, shorter
+		// than the ACK timeout; chunks stay in memory, so that a chunk forgotten by the client is gone
+		maxDuration = fmt.Sprintf("%dms", 25+r.Intn(50))
+		p.MemLen = 16
+		p.AckPending = 3
+		p.AckTimeoutMs = 150
 	}
 	run.Params = p
 	e2eApplyParams(p)
@@ -291,7 +307,7 @@ func c01Execute(sc *c01Scenario) (run *c01Run) {
 		if i == 1 {
 			mode = c01Modes(int(sc.Seed) + 1)
 		}
-		outs = append(outs, e2eOutput{Name: name, Addr: srv.Addr(), Mode: mode, MaxBufSize: quota})
+		outs = append(outs, e2eOutput{Name: name, Addr: srv.Addr(), Mode: mode, MaxBufSize: quota, MaxDuration: maxDuration})
 	}
 	ag, err := e2eNewAgent(e2eConfig{Dir: dir, Keys: sc.keys(), Outputs: outs}, tr)
 	if err != nil {
@@ -321,6 +337,24 @@ func c01Execute(sc *c01Scenario) (run *c01Run) {
 	randomScript := func() ([]ffStep, ffStep) {
 		n := r.Intn(6)
 		var steps []ffStep
+		if sc.Rotate {
+			// the rotation meets: a silent upstream, a reset before the ACK, an ACK later than the rotation interval
+			n = 2 + r.Intn(6)
+			for i := 0; i < n; i++ {
+				switch r.Intn(5) {
+				case 0, 1:
+					steps = append(steps, ffStep{Mode: ffNeverAck})
+				case 2:
+					k := 1 + r.Intn(3)
+					steps = append(steps, ffStep{Mode: ffResetAfter, K: k, AckN: r.Intn(k)})
+				case 3:
+					steps = append(steps, ffStep{Mode: ffAckLate, DelayMs: 60 + r.Intn(60)})
+				default:
+					steps = append(steps, ffStep{Mode: ffHealthy})
+				}
+			}
+			return steps, ffStep{Mode: ffHealthy}
+		}
 		for i := 0; i < n; i++ {
 			switch x := r.Intn(10); {
 			case x < 2:
@@ -345,7 +379,12 @@ func c01Execute(sc *c01Scenario) (run *c01Run) {
 		return steps, tail
 	}
 
-	long := 20 * time.Second
+	// generous on a healthy tree (the waits end after milliseconds); once two scenarios of this process have timed out
+	// the violation is established and later scenarios do not wait as long
+	long := 10 * time.Second
+	if c01StuckScenarios >= 2 {
+		long = 3 * time.Second
+	}
 	inputWait := 6 * time.Second
 	t0 := time.Now()
 	lap := func(what string) {
@@ -483,6 +522,7 @@ func c01Execute(sc *c01Scenario) (run *c01Run) {
 					}
 					if !servers[name].WaitAckedStamps(want, long) {
 						run.Stuck[name] = servers[name].MissingAcked(want)
+						c01StuckScenarios++
 					}
 				} else {
 					ag.WaitIdle(long)
